@@ -204,7 +204,9 @@ class MCNP_Lexer(Lexer):
     e.g.: ``lwtr.20t``. 
     """
 
-    @_(r"[+\-]?\d+(?!e)[a-z]+")
+    # an "e" right after the digits starts an exponent only when a digit or a sign follows: 1e5 is a number,
+    # 03e is the identifier of an electron library
+    @_(r"[+\-]?\d+((?!e)[a-z]+|e(?![0-9+\-])[a-z]*)")
     def NUMBER_WORD(self, t):
         """
         An integer followed by letters.
